@@ -35,7 +35,7 @@ def random_layout(tokens, rnd, tight=0.15):
     return text
 
 
-def split_lines(lines, rnd, max_files=3, prefix="inc"):
+def split_lines(lines, rnd, max_files=3, prefix="inc", repeat=False):
     """canonical layout over several files: contiguous line blocks move into included files
     (nested includes possible).  -> (files dict, main name)"""
     items = [" ".join(l) for l in lines]
@@ -49,6 +49,24 @@ def split_lines(lines, rnd, max_files=3, prefix="inc"):
         name = rnd.choice(["%s%d", "%s%d", "lib/%s_%d.theo", "a rather long directory/%s%d.theo"]) % (prefix, k)
         files[name] = "\n".join(items[i:j])
         items[i:j] = ['%s "%s"' % (rnd.choice(L.SPELL[L.INCLUDE]), name)]
+    if repeat:
+        # repeated inclusion: a run of >= 2 complete simple statements (assignment lines ending in ';') moves into
+        # a file that is included two or three times in a row
+        runs = []
+        i = 0
+        while i < len(items):
+            j = i
+            while j < len(items) and ":=" in items[j] and items[j].rstrip().endswith(";") and "include" not in items[j].lower() \
+                    and not items[j].split()[0].endswith(":") and (len(items[j].split()) < 2 or items[j].split()[1] != ":"):
+                j += 1
+            if j - i >= 2:
+                runs.append((i, j))
+            i = max(j, i + 1)
+        if runs:
+            i, j = rnd.choice(runs)
+            j = min(j, i + 4)
+            files["rep"] = "\n".join(items[i:j])
+            items[i:j] = ['include "rep"'] * rnd.randint(2, 3)
     files["main"] = "\n".join(items)
     return files, "main"
 
